@@ -5,6 +5,7 @@ import mm as M
 import layout as LY
 import ctor as CT
 import cmpstage as CM
+import ovstage as OV
 from stages import BASE, CONV, CONV_CORE, BORROW, UNIQ, COW, UNWRAP
 
 SIZED_MODULES = ["Triomphe.tla", "MC_Sized.tla"]
@@ -118,6 +119,10 @@ def c07(tier, seed):
             thin("C07", tier, "thin_walks_" + tier[0], THIN_OPS, 6, 4, 2, 3, simulate=((1000, 40, seed) if tier == "quick" else (20000, 80, seed)))]
 
 
+def c16(tier, seed):
+    return [stage(OV.overflow_stage, "C16", tier, "overflow_" + tier[0])]
+
+
 def c14(tier, seed):
     return [stage(CM.compare_stage, "C14", tier, "compare_" + tier[0])]
 
@@ -220,8 +225,10 @@ def any_replay(p, v):
         return LY.replay_layout(p, v)
     if v.get("key", "").startswith(("ctor:", "allocfail:", "crash-in-ctor")):
         return CT.replay_ctor(p, v)
-    if p == "C14":
+    if p == "C14" or v.get("stage", "").startswith("union_variants"):
         return CM.replay_compare(p, v)
+    if v.get("key", "").startswith("overflow:"):
+        return OV.replay_overflow(p, v)
     return M.replay_mm(p, v)
 
 
@@ -239,6 +246,7 @@ PROPS = {
     "C06": {"level": "model_checking", "stages": c06, "assumptions": GRAPH_ASSUME + ["Ctor.tla models each constructor as the sequence of calls, writes and checks the source performs; lengths beyond the fault bound are honest cases only"], "replay": any_replay},
     "C07": {"level": "fault_enumeration", "stages": c07, "assumptions": GRAPH_ASSUME + ["faults: panic at the k-th next / Clone / callback exit / comparison-hash-format impl, misreported len/size_hint within +-2 and changing between calls, failing allocation 1..3 (child processes); a leak is tolerated only where Ctor.tla leaks the half-built block"], "replay": any_replay},
     "C14": {"level": "model_checking", "stages": c14, "assumptions": ["the reference answers (what the values answer) are Compare.tla's ValEq / ValCmp: header, then slice lexicographically, then recorded length; the real value types' own impls are checked against that table, every handle kind against the values", "exhaustive over the small domain only (3 letters, slices up to the bound, recorded length equal or +1)"], "replay": any_replay},
+    "C16": {"level": "model_checking", "stages": c16, "assumptions": ["the 4-bit count word is a scale model of the 64-bit one: the guard compares with half the range, which is parametric in the width", "start counts are preset through the tracer's knowledge of the count's address; each clone runs in its own child process", "concurrent increments racing past the limit are not modelled (the guard's slack of isize::MAX increments is the crate's documented assumption)"], "replay": any_replay},
     "C02": {"level": "model_checking", "stages": c02, "assumptions": MM_ASSUME, "replay": any_replay},
     "C01": {"level": "model_checking", "stages": c01, "assumptions": GRAPH_ASSUME, "replay": any_replay},
     "C03": {"level": "model_checking", "stages": c03, "assumptions": GRAPH_ASSUME + MM_ASSUME, "replay": any_replay},
